@@ -1324,6 +1324,48 @@ class FnPass:
                     return self.is_pow2(rv[2], depth + 1) and self.is_pow2(rv[3], depth + 1)
         return False
 
+    def _copy_root(self, op):
+        """the local an operand is a plain copy of (through single-definition `_t = copy x` temporaries)"""
+        pl = op_place(op)
+        for _ in range(6):
+            if pl is None or not isinstance(pl, int):
+                return pl if isinstance(pl, int) else None
+            d = self.fn.single_def(pl)
+            if d is None or d[2] != "assign":
+                return pl
+            rv = self.fn.blocks[d[0]].stmts[d[1]][2]
+            if rv[0] == "use" and op_place(rv[1]) is not None and isinstance(op_place(rv[1]), int):
+                pl = op_place(rv[1])
+                continue
+            return pl
+        return pl
+
+    def _derived_below(self, b, a, depth=0):
+        """is the unsigned value b *computed from* a by an operation that cannot exceed it -- `a % k`, `a & m`, `a >> k`, `a / k`,
+        `a - x` (itself overflow-checked) -- so that `a - b` cannot wrap?  (single-definition locals, copies looked through)"""
+        ra = self._copy_root(a)
+        rb = self._copy_root(b)
+        if ra is None or rb is None or depth > 3:
+            return False
+        d = self.fn.single_def(rb)
+        if d is None or d[2] != "assign":
+            return False
+        rv = self.fn.blocks[d[0]].stmts[d[1]][2]
+        if rv[0] == "use":
+            # the `.0` of a checked operation's (value, overflowed) pair
+            pl = op_place(rv[1])
+            if pl is not None and not isinstance(pl, int) and len(pl_proj(pl)) == 1 and pl_proj(pl)[0][0] == ".":
+                d2 = self.fn.single_def(pl_local(pl))
+                if d2 is not None and d2[2] == "assign":
+                    rv = self.fn.blocks[d2[0]].stmts[d2[1]][2]
+        if rv[0] == "bin":
+            opn = rv[1].replace("WithOverflow", "").replace("Unchecked", "")
+            if opn in ("Rem", "BitAnd", "Shr", "Div", "Sub") and self._copy_root(rv[2]) == ra:
+                return True
+            if opn == "BitAnd" and self._copy_root(rv[3]) == ra:
+                return True
+        return False
+
     def prove_le(self, st, a, b):
         """is `a <= b` certain at this point? (intervals, or a recorded fact root(a) <= root(b) under the same
         monotone transform chain)"""
@@ -1860,7 +1902,7 @@ class FnPass:
                     if status == "unsafe" and opn == "Sub" and tlo == 0 and hi <= thi:
                         # a - b on unsigned operands under a dominating `b <= a` (the `a < b` arm returned / short-circuited)
                         try:
-                            if self.prove_le(st, ops[1], ops[0]):
+                            if self.prove_le(st, ops[1], ops[0]) or self._derived_below(ops[1], ops[0]):
                                 status = "safe"
                         except Exception:
                             pass
